@@ -48,7 +48,7 @@ LAYOUTS = {
 YLAYOUT = {"one": {"time": 12, "station": 4}, "samples": {"time": 4, "station": 4}, "feature": {"time": 12, "station": 2}, "both": {"time": 6, "station": 2}, "element": {"time": 1, "station": 1}}
 
 MODELS_Q = ["EOF", "MCA", "EOFRotator"]
-MODELS_T = ["EOF", "EOF+kwargs", "SparsePCA", "POP", "OPA", "ExtendedEOF", "EOFRotator", "EOFRotator2", "MCA", "CPCCA", "MCARotator", "MCARotator2"]
+MODELS_T = ["EOF", "EOF+kwargs", "SparsePCA", "POP", "OPA", "ExtendedEOF", "ExtendedEOF+pca", "EOFRotator", "EOFRotator2", "MCA", "CPCCA", "MCARotator", "MCARotator2"]
 CROSS = {"MCA", "CPCCA", "MCARotator", "MCARotator2"}
 ROTATORS = {"EOFRotator", "EOFRotator2", "MCARotator", "MCARotator2"}
 
@@ -96,6 +96,8 @@ def build(model, compute, check_nans, deferred):
         m = xe.single.OPA(n_modes=2, tau_max=3, n_pca_modes=3, **kw)
     elif model == "ExtendedEOF":
         m = xe.single.ExtendedEOF(n_modes=2, tau=1, embedding=2, **kw)
+    elif model == "ExtendedEOF+pca":
+        m = xe.single.ExtendedEOF(n_modes=2, tau=1, embedding=2, n_pca_modes=3, **kw)
     elif model in ("EOFRotator", "EOFRotator2"):
         m = xe.single.EOF(n_modes=3, **kw)
         rot = xe.single.EOFRotator(n_modes=3, power=1 if model == "EOFRotator" else 2, max_iter=16 if deferred else 1000, compute=compute)
@@ -156,6 +158,9 @@ def workload(case, seed, scheduler_ctx):
     if layout != "numpy":
         obs["input_dask_after"] = {k: is_dask(v) for k, v in obj.data.items() if k.startswith("input_data")}
         obs["lazy_after_compute"] = {k: is_dask(v) for k, v in obj.data.items() if not k.startswith("input_data")}
+        # compute() once more (what save() does on an already computed model): the input must still not be materialised
+        obj.compute()
+        obs["input_dask_after_second_compute"] = {k: is_dask(v) for k, v in obj.data.items() if k.startswith("input_data")}
     res = readout(model, m, rot)
     return res, obs
 
@@ -354,10 +359,10 @@ def run_case(case, seed):
                     if nl:
                         bad("fit_leaves_eager_results", "not dask-backed after deferred rotator fit: %s" % nl, stage="rot.fit")
             # (e) the input data stays dask-backed inside the model
-            for when in ("input_dask_before", "input_dask_after"):
+            for when in ("input_dask_before", "input_dask_after", "input_dask_after_second_compute"):
                 nl = sorted(k for k, v in obs[when].items() if not v)
                 if nl:
-                    bad("input_data_materialised", "%s: %s replaced by an in-memory copy" % (when, nl), when=when.split("_")[-1])
+                    bad("input_data_materialised", "%s: %s replaced by an in-memory copy" % (when, nl), when=when.replace("input_dask_", ""))
             # (b) after compute() everything is in memory
             nl = sorted(k for k, v in obs["lazy_after_compute"].items() if v)
             if nl:
